@@ -247,10 +247,25 @@ theorem two_defaults_rejected (sc : Script) (user : List (String × Path × Val)
     rw [flatten_eq]
     exact nodup_of_map _ _ hk
 
-/-- once `setup()` has run the configuration is frozen: every further write is refused, every write
-attempted from inside a component's or manager's `setup` was refused, every object saw the same
-(final) values while it was set up, and neither `add_components` nor a second `setup()` is admitted -/
-theorem frozen_after_setup (sc : Script) (user : List (String × Path × Val)) (mgrs : List (String × Defaults))
+/-! FULL STATEMENT (not provable – false of the system as it is, recorded finding F18):
+
+    theorem frozen_after_setup_partial … (h : simulate sc user mgrs ts = .ok s) :
+        every operation on the configuration object that a component or the user can perform
+        after setup() has begun leaves `s.cfg.get` unchanged
+
+`layered_config_tree` (4.1.9) checks `_frozen` in `update`, attribute and item ASSIGNMENT but not in
+`__delattr__` / `__delitem__`: `del builder.configuration.<key>` from a component's `setup` is
+accepted and the key is gone for everything that runs later. The model reproduces the library
+(`Config.delete` ignores `frozen`); `delete_ignores_freeze` below is the witness of the negation, the
+harness replays it on the real code on every run (signature `config-delete-after-freeze`).
+What is proved is the statement for every WRITE (update / assignment): the probe script of the model
+(`Script.attempts`) contains writes only – that is the excluded input class. -/
+
+/-- (partial: writes, not deletions – see above) once `setup()` has run the configuration is frozen:
+every further write is refused, every write attempted from inside a component's or manager's
+`setup` was refused, every object saw the same (final) values while it was set up, and neither
+`add_components` nor a second `setup()` is admitted -/
+theorem frozen_after_setup_partial (sc : Script) (user : List (String × Path × Val)) (mgrs : List (String × Defaults))
     (ts : List Tree) (s : Sim) (h : simulate sc user mgrs ts = .ok s) :
     (∀ l p v, s.cfg.update l p v = .error .frozen) ∧ (∀ x ∈ s.tried, x.2.2 = false) ∧
     (∀ x ∈ s.seen, x.2 = sc.probes.map s.cfg.get) ∧
@@ -269,6 +284,16 @@ theorem setup_writes_nothing (sc : Script) (s s' : Sim) (h : setup sc s = .ok s'
   have q := runActs_quiet sc setupActs s s' hr (hff _)
   obtain ⟨_, _, hf', _⟩ := runActs_steps sc setupActs s s' hr
   exact ⟨q.entries, by rw [hf', hef], q.tried⟩
+
+/-- witness of the negation of the full statement (F18): after ANY accepted bootstrap – the
+configuration is frozen – deleting a key still goes through: the frozen flag stays set, and every
+value at or below the key, user-supplied or not, is gone -/
+theorem delete_ignores_freeze (sc : Script) (user : List (String × Path × Val)) (mgrs : List (String × Defaults))
+    (ts : List Tree) (s : Sim) (h : simulate sc user mgrs ts = .ok s) (key : String) (p : Path)
+    (hp : Config.under key p = true) :
+    s.cfg.frozen = true ∧ (s.cfg.delete key).frozen = true ∧ (s.cfg.delete key).get p = none := by
+  obtain ⟨_, _, _, hf, _⟩ := accepted sc user mgrs ts s h
+  exact ⟨hf, hf, get_delete_none s.cfg key p hp⟩
 
 /-! ### Non-vacuity: the hypotheses are inhabited and the error branches are reachable -/
 
@@ -301,5 +326,10 @@ theorem witness_rejected :
     simulate sc1 u1 m1 (t1 ++ [.node "x" [("s.j", "7")] []]) = .error .dupValue ∧
     simulate sc1 u1 m1 (t1 ++ [.node "x" [("population.size", "7")] []]) = .error .dupValue ∧
     simulate sc1 (u1 ++ [("configuration", "t.k", "301")]) m1 t1 = .error .dupValue := by decide
+
+/-- … concretely: the user's override `t.k = 300` of `witness_accepted` is lost by `del cfg.t` -/
+theorem witness_delete_after_freeze :
+    (simulate sc1 u1 m1 t1).toOption.map (fun s => (s.cfg.get "t.k", (s.cfg.delete "t").get "t.k", (s.cfg.delete "t").get "s.k")) =
+      some (some "300", none, some "10") := by decide
 
 end Viv.Props.C20
